@@ -55,6 +55,14 @@ func c03Envs(r *core.Rand) []map[string]any {
 		b["longrecs"] = long
 		b["mixedrecs"] = []any{map[string]any{"k": 2, "name": "b"}, nil, 5, "str", map[string]any{"k": 1, "name": "a"}, map[string]any{"name": "c"}, map[any]any{1: 2}, 2.5}
 		b["scalars"] = []any{7, "x", nil, 1.5, true}
+		// one struct type bound by value in some environments and by pointer in others (their method sets differ), two
+		// struct types that rename fields with liquid tags
+		if k%2 == 0 {
+			b["ms"] = gen.MethodStruct{Title: "Hello World"}
+		} else {
+			b["ms"] = &gen.MethodStruct{Title: "Hello World"}
+		}
+		b["ta"], b["tb"] = gen.TaggedA{Name: "lamp", Price: 5, Sku: "SKU-1"}, &gen.TaggedB{Email: "ada@example.org", Full: "Ada", Sku: 7}
 		b["st"] = &gen.DataStruct{Name: "s", Items: []int{3, 1, 2}, M: map[string]any{"z": 1}}
 		out = append(out, b)
 	}
@@ -75,6 +83,7 @@ var c03Fixed = []string{
 	// application tags (custom.go): Context.Set writes a variable of this render, never the caller's map
 	"{% xset spare = 'custom-shadow' %}{{ spare }}{% xset newvar = 5 %}{{ newvar }}{% xget newvar %}{% xset words = spare %}", "{% xwrap {{ n }} %}{% assign inwrap = 1 %}{{ spare | sort | first }}{% xset deep = words | first %}{% endxwrap %}{{ inwrap }}{{ deep }}",
 	"{% xbump hits %}{% xbump hits %}{{ hits }}{% xbump n %}{{ n }}{% xbump spare %}{{ spare }}", "{% xbump k %}{% for x in spare %}{% xbump loops %}{% endfor %}{{ loops }}{{ k }}",
+	"{{ ms.Title }}|{{ ms.Upper }}|{{ ms.Slug }}|{{ ms.nosuch }}", "{{ ta.label }}:{{ ta.cost }}:{{ ta.Sku }}|{{ tb.label }}:{{ tb.cost }}:{{ tb.Sku }}|{{ ta.Name }}{{ tb.Email }}",
 	"{% for r in recs %}{{ r.size }}{% xcard r %}{% endfor %}{{ recs[0].size }}{% xcard nothing %}{% xcard longrecs[3] %}", "{% xcard recs.first %}{% xcard recs.last %}{{ recs.last | size }}{{ incard }}",
 	"{% xtwice %}{% cycle 'a', 'b', 'c' %}{% assign tw = tw | append: 'x' %}{% endxtwice %}{{ tw }}", "{% xwhen spare contains 3 %}{% xset st = nil %}{% xset recs = 1 %}{% endxwhen %}{{ st }}{{ recs }}{% xecho {{ spare | reverse | join: ',' }} %}",
 	"{{ words | join: ',' | split: ',' | sort | last }}{{ words | first | append: '!' }}", "{% case spare.size %}{% when 4 %}{% assign four = true %}{% endcase %}{{ four }}{% unless four %}U{% endunless %}",
